@@ -151,6 +151,7 @@ int wanttype;
  rrtype = getshort(responsepos);
  rrdlen = getshort(responsepos + 8);
  responsepos += 10;
+ if (rrdlen > responseend - responsepos) return DNS_SOFT;
 
  if (rrtype == wanttype)
   {
@@ -189,6 +190,7 @@ int wanttype;
  rrtype = getshort(responsepos);
  rrdlen = getshort(responsepos + 8);
  responsepos += 10;
+ if (rrdlen > responseend - responsepos) return DNS_SOFT;
 
  if (rrtype == wanttype)
   {
